@@ -594,6 +594,26 @@ MUTANTS = {
           "  def get_quantizers(self):\n    return self.cell.quantizers\n",
           "  def get_quantizers(self):\n    return self.cell.quantizers[::-1]"
           "\n", matches=3, which=1)]),
+    # the report's fixed-point int_bits loses the sign bit it documents
+    "m109_report_int_bits_without_sign": dict(expect=["C18"], edits=[
+        E("qkeras/qtools/interface.py",
+          "      mydict[\"int_bits\"] = quantizer.int_bits + "
+          "quantizer.is_signed\n",
+          "      mydict[\"int_bits\"] = quantizer.int_bits\n")]),
+    # compound entries report the operand instead of the operator's output
+    "m110_report_accumulator_entry_from_multiplier": dict(
+        expect=["C18"], edits=[
+            E("qkeras/qtools/interface.py",
+              "      set_layer_item(layer_item, key=\"accumulator\", "
+              "feature=feature,\n",
+              "      set_layer_item(layer_item, key=\"multiplier\", "
+              "feature=feature,\n                     "
+              "output_key_name=\"accumulator\",\n")]),
+    # the two percentages reach the base class in the wrong order
+    "m111_forgiving_factor_deltas_swapped": dict(expect=["C20"], edits=[
+        E("qkeras/autoqkeras/forgiving_metrics/forgiving_bits.py",
+          "    super().__init__(delta_p, delta_n, rate)\n",
+          "    super().__init__(delta_n, delta_p, rate)\n")]),
     "m95_po2_operand_converted_in_place": dict(expect=["C17"], edits=[
         E(QO + "adder_factory.py",
           "    local_quantizer_1 = copy.deepcopy(quantizer_1)\n"
@@ -934,6 +954,35 @@ BENIGN = {
     "b48_process_costs_in_a_loop": dict(props=["C19"], edits=os.path.join(
         os.path.dirname(os.path.abspath(__file__)), "benign_patches",
         "b48_process_costs_in_a_loop.diff")),
+    # the benign twin of C11-seed10: the intermediate activation / dropout
+    # block of the MobileNet factory as a local helper, used in both orders
+    "b49_mobilenet_mid_block_helper": dict(props=["C11"], edits=[
+        E("qkeras/qconvolutional.py",
+          "    x = inputs\n\n    if pw_first:\n",
+          "    x = inputs\n\n"
+          "    def _between(x):\n"
+          "      if depthwise_activation:\n"
+          "        if isinstance(depthwise_activation, QActivation):\n"
+          "          x = depthwise_activation(x)\n"
+          "        else:\n"
+          "          x = QActivation(depthwise_activation,\n"
+          "                          name=name + \"_dw_act\")(x)\n"
+          "      if depthwise_dropout_rate > 0.0:\n"
+          "        x = Dropout(rate=depthwise_dropout_rate,\n"
+          "                    name=name + \"_dw_dropout\")(x)\n"
+          "      return x\n\n"
+          "    if pw_first:\n"),
+        E("qkeras/qconvolutional.py",
+          "      if depthwise_activation:\n"
+          "        if isinstance(depthwise_activation, QActivation):\n"
+          "          x = depthwise_activation(x)\n"
+          "        else:\n"
+          "          x = QActivation(depthwise_activation, name=name + "
+          "\"_dw_act\")(x)\n\n"
+          "      if depthwise_dropout_rate > 0.0:\n"
+          "        x = Dropout(rate=depthwise_dropout_rate, name=name + "
+          "\"_dw_dropout\")(x)\n",
+          "      x = _between(x)\n", matches=2, which="all")]),
     # the benign twin of C03-seed9: max_value setters that re-derive the
     # exponent range correctly for both po2 classes
     "b45_po2_max_value_setters": dict(props=["C03", "C09", "C10"],
